@@ -530,7 +530,10 @@ func (c *Conn) Unary(q Req) (Stream, error) {
 type Input struct {
 	Batch  arrow.RecordBatch // schema must equal StreamCall.InputSchema; nil = zero-row batch
 	Cancel bool              // send a cancel batch (zero rows + vgi_rpc.cancel) instead, then EOS
-	Meta   [][2]string       // custom metadata on the batch
+	// CancelValue is the value of the cancel key (nil: "true"). The signal is
+	// the key's presence, so any value - also "" - must cancel.
+	CancelValue *string
+	Meta        [][2]string // custom metadata on the batch
 }
 
 // StreamCall describes one stream method call on a pipe-like connection.
@@ -575,7 +578,11 @@ func (e *inputEnc) send(in Input) error {
 	var rec arrow.RecordBatch
 	var k, v []string
 	if in.Cancel {
-		k, v = append(k, KeyCancel), append(v, "true")
+		cv := "true"
+		if in.CancelValue != nil {
+			cv = *in.CancelValue
+		}
+		k, v = append(k, KeyCancel), append(v, cv)
 	}
 	for _, m := range in.Meta {
 		k, v = append(k, m[0]), append(v, m[1])
